@@ -430,6 +430,8 @@ def run_sched_case(case: Dict[str, Any]) -> Dict[str, Any]:
     shim_thr, shim_time = ShimThreading(ctl), ShimTime()
     old = (dcm.threading, dcm.time)
     dcm.threading, dcm.time = shim_thr, shim_time
+    from .rebind import rebind              # the same stand-ins under any import style of data_collection.py
+    rebind(dcm, {"threading": shim_thr, "time": shim_time})
     base = tempfile.mkdtemp(prefix="pyrtma_verif_dlrun_")
     wc = WarnCounter()
     root_logger = logging.getLogger("data_logger")
@@ -554,6 +556,7 @@ def run_sched_case(case: Dict[str, Any]) -> Dict[str, Any]:
                 dc._dead = True
         root_logger.removeHandler(wc)
         dcm.threading, dcm.time = old
+        rebind(dcm, {"threading": old[0], "time": old[1]})
         shutil.rmtree(base, ignore_errors=True)
     return obs
 
